@@ -19,10 +19,14 @@ T = {
 "C04": ("tlc-crystal", "TLC proves Symmetric (every reference operation is an isometry of the cell and permutes the placements modulo the lattice) as an invariant of the grid model and prints the placements; the real cartesian placements of hard and LJ states must equal them on every grid state (all 16 rational orientations, sites incl. +-1/2). Recorded optimiser runs are judged by TLC for C04Frozen (family-frozen parameters never move) and the crystals returned by 3-stage chains have their symmetry residual measured.", GEO_NOTE),
 "C12": ("tlc-crystal", "TLC enumerates every configuration of two placed copies on a rational grid (offsets, 3-4-5/5-12-13 orientations, mirror images; parallel/collinear edges, shared vertices, coincident copies included) with the exact separating-axis / disc-distance verdict; 10 real answers per configuration (both argument orders x 5 common rigid motions and reflections) must equal it unless it is `touch`.", GEO_NOTE),
 "C15": ("tlc-crystal", "Placements of Crystal.tla (operation k applied to the site, wrapped into the half-open cell, linear part W_k R) enumerated for all groups x sites on the 1/16 grid incl. +-1/2 and coordinates shifted by whole lattice vectors x 16 orientations; real relative_positions() of hard and LJ states compared as multisets.", GEO_NOTE),
+"C13": ("tlc-crystal", "LJ.tla states the law in the rational form E = 4 eps (q^2 - q), q = (sigma/r)^6, with shift and cutoff cases; TLC enumerates (eps, q, cutoff) with the exact rational energy and model invariants (minimum -eps only at q = 1/2, zero at r = sigma, continuity at the cutoff); every case is realised at 4 sigmas, after rigid motions and reflections, in both argument orders. LJMol.tla enumerates pairs of grid molecules and lists the squared distances of all particle pairs; LJShape2::energy must equal the sum of the pair terms. Unlike particles: symmetry over a grid of sigma/epsilon/cutoff combinations.", GEO_NOTE),
+"C14": ("tlc-crystal", "Lattice.tla: ToCart, Images(k, zero), Area, Corners in integers for every (family label, rational cell, placement anywhere in the plane, orientation, shell count, zero flag) of the grid (1.4e5 states, 2.9e6 images in the quick tier); to_cartesian/_point/_isometry/_translate, periodic_images (multiset, orientation unchanged), area and get_corners of the real Cell2 are compared with TLC's integers.", GEO_NOTE),
+"C17": ("tlc-parser", "Parser.tla: grammar of coordinate triplets with its denotation, and a transcription of the character automaton; TLC runs the automaton over every grammar string within the digit sets (one state per character) and proves Automaton = Denote; every string is replayed on the real parser, which must return exactly Denote. MC_ParserJunk enumerates every string up to length 3 (4 thorough) over an alphabet with junk and multi-byte characters: no panic.", "Trusted: TLC, catch_unwind. Exhaustive within the stated bounds."),
 "C16": ("tlc-wallpaper", "The implementation's tables are dumped and given to TLC, which walks the Cayley graph of each (closure) and checks identity, inverses, order, mirror/glide/two-fold content, family invariance and equality with the reference general positions modulo the lattice; the reference tables themselves are checked against the same axioms. Exhaustive.", "Trusted: TLC; the dump goes through get_wallpaper_group -> WyckoffSite::new (the path the program uses)."),
 }
 ENG = {"tlc-optimiser": ("/verif/spec/Optimiser.tla", "TLA+ spec of the MC optimiser; TLC bounded model checking (MC_Optimiser) and trace validation (OptimiserTrace) of runs recorded by /verif/harness"),
        "tlc-crystal": ("/verif/spec/Crystal.tla", "TLA+ spec of the crystal geometry in exact integer arithmetic (Crystal, Shapes, Pairs, Trimer, Wallpaper); TLC enumerates grid states with exact observables, /verif/harness replays them on the real code"),
+       "tlc-parser": ("/verif/spec/Parser.tla", "grammar, denotation and character automaton of the symmetry-operation parser; TLC enumerates strings, the harness replays them on Transform2::from_operations"),
        "tlc-wallpaper": ("/verif/spec/Wallpaper.tla", "reference plane-group tables and axioms; TLC checks the implementation's dumped tables"),
        "tlc-pipeline": ("/verif/spec/Pipeline.tla", "TLA+ spec of the CLI pipeline (replicas, clones, reduction, outputs); TLC model checking + validation of recorded CLI runs")}
 import importlib.util, os
